@@ -10,8 +10,8 @@
 (***************************************************************************)
 EXTENDS TraceIO, CharCount
 
-VARIABLES l, bad, cell, info, acc, failW, totW, nleaf, done, stats, prevG
-vars == <<l, bad, cell, info, acc, failW, totW, nleaf, done, stats, prevG>>
+VARIABLES l, bad, cell, info, acc, failW, cutW, totW, nleaf, done, stats, prevG
+vars == <<l, bad, cell, info, acc, failW, cutW, totW, nleaf, done, stats, prevG>>
 
 NoCell == [op |-> "none"]
 Tol == 4      \* float32 additions in the formula
@@ -186,6 +186,7 @@ Replayable == info.sep.kind # "recipe" \/ info.sep.refused \/ info.sep.generates
 SepEntropyFixed == info.sep.kind # "recipe" \/ info.sep.refused \/ (info.sep.generates /\ info.sep.live = {})
 
 LeafWhys(c, lf) ==
+  IF lf.res.kind = "cut" THEN <<"ok">> ELSE
   LET res == lf.res
       honourable == HasList(c) /\ c.size >= 1 /\ c.wl.len >= 1
       as == AtomsOf(res.toks)
@@ -243,23 +244,27 @@ EndWhys(c) ==
   <<IF totW # c.denInt THEN "H:leaf-masses-do-not-sum-to-one" ELSE "ok",
     IF nleaf # c.nleaves THEN "H:leaf-count" ELSE "ok",
     \* C04: all possible passwords equally likely when every word is capitalisable (and separators are uniform)
-    IF info.allCap /\ info.premise /\ info.sep.uniform /\ failW = 0 /\ Cardinality(Weights) # 1
+    IF info.allCap /\ info.premise /\ info.sep.uniform /\ failW = 0 /\ cutW = 0 /\ Cardinality(Weights) # 1
       THEN "P:C04:passwords-of-the-recipe-are-not-equally-likely" ELSE "ok",
-    IF info.allCap /\ info.premise /\ info.sep.uniform /\ failW = 0
+    IF info.allCap /\ info.premise /\ info.sep.uniform /\ failW = 0 /\ cutW = 0
        /\ FromInt(Cardinality(DOMAIN acc)) # PasswordCountBig(c, info)
       THEN "P:C04:number-of-distinct-passwords-differs-from-words^L-x-capitalisations-x-separators" ELSE "ok",
     \* C04 in general (also with uncapitalisable words): the measured distribution is the image of the uniform, independent choices
     IF DistDecidable(c) /\ ~(LET sd == SpecDist
                                 n == SpecPathCount
-                            IN /\ DOMAIN sd = DOMAIN acc
-                               /\ \A o \in DOMAIN acc : acc[o] * n = sd[o] * totW)
+                            \* runs abandoned by the harness (cutW) have an unknown outcome: the real mass of o lies in
+                            \* [acc[o], acc[o] + cutW]; with cutW = 0 this is equality
+                            IN /\ DOMAIN acc \subseteq DOMAIN sd
+                               /\ (cutW = 0 => DOMAIN sd = DOMAIN acc)
+                               /\ \A o \in DOMAIN acc : acc[o] * n <= sd[o] * totW /\ sd[o] * totW <= (acc[o] + cutW) * n
+                               /\ \A o \in (DOMAIN sd) \ (DOMAIN acc) : sd[o] * totW <= cutW * n)
       THEN "P:C04:password-distribution-is-not-that-of-uniform-independent-word-capitalisation-and-separator-choices" ELSE "ok",
     \* C06: no password likelier than 2^-Entropy (min-entropy), equality when uniform
     IF c.ent.k # "panic" /\ info.premise /\ info.sep.uniform /\
        ~(LET N == FromInt(c.denInt \div MaxW) IN
            IF c.denInt % MaxW = 0 THEN EntropyNotAbove(c.ent, N, Tol) ELSE EntropyNotAbove(c.ent, Add(N, One), Tol))
       THEN "P:C06:some-password-is-likelier-than-2^-Entropy" ELSE "ok",
-    IF c.ent.k # "panic" /\ info.allCap /\ info.premise /\ info.sep.uniform /\ c.sepZeroEnt = 0 /\ failW = 0 /\ Cardinality(Weights) = 1 /\ c.denInt % MaxW = 0
+    IF c.ent.k # "panic" /\ info.allCap /\ info.premise /\ info.sep.uniform /\ c.sepZeroEnt = 0 /\ failW = 0 /\ cutW = 0 /\ Cardinality(Weights) = 1 /\ c.denInt % MaxW = 0
        /\ ~EntropyIsLog2(c.ent, FromInt(c.denInt \div MaxW), Tol)
       THEN "P:C06:entropy-below-the-true-value-for-a-uniform-recipe" ELSE "ok"
   >>
@@ -268,7 +273,7 @@ RECURSIVE BadOf(_,_,_)
 BadOf(line, ws, i) == IF i > Len(ws) THEN <<>>
                       ELSE (IF ws[i] = "ok" THEN <<>> ELSE <<Bad(line, ws[i])>>) \o BadOf(line, ws, i+1)
 
-Init == /\ l = 1 /\ bad = <<>> /\ cell = NoCell /\ info = NoCell /\ acc = <<>> /\ failW = 0 /\ totW = 0 /\ nleaf = 0 /\ done = FALSE
+Init == /\ l = 1 /\ bad = <<>> /\ cell = NoCell /\ info = NoCell /\ acc = <<>> /\ failW = 0 /\ cutW = 0 /\ totW = 0 /\ nleaf = 0 /\ done = FALSE
         /\ stats = [cells |-> 0, leaves |-> 0, decided |-> 0] /\ prevG = NoCell
 
 Key(res) == [i \in DOMAIN res.toks |-> <<res.toks[i].t, res.toks[i].v>>]
@@ -280,7 +285,7 @@ Step ==
             LET inf == IF e.ctorErr = 0 /\ HasList(e) THEN InfoOf(e) ELSE [sep |-> SepInfo(e), L |-> e.wl.len, cap |-> e.wl.cap, size |-> 0,
                                                                              kept |-> {}, titled |-> {}, keptSeq |-> <<>>, allCap |-> FALSE, premise |-> FALSE,
                                                                              keptTitleSeq |-> <<>>, keptSpec |-> {}, titlesConsistent |-> TRUE]
-            IN /\ cell' = e /\ info' = inf /\ acc' = <<>> /\ failW' = 0 /\ totW' = 0 /\ nleaf' = 0
+            IN /\ cell' = e /\ info' = inf /\ acc' = <<>> /\ failW' = 0 /\ cutW' = 0 /\ totW' = 0 /\ nleaf' = 0
                /\ bad' = bad \o BadOf(l, CellWhys(e, inf), 1) \o BadOf(l, GroupWhys(e), 1)
                /\ prevG' = IF e.grp > 0 THEN e ELSE prevG
                /\ stats' = [stats EXCEPT !.cells = @ + 1]
@@ -291,21 +296,22 @@ Step ==
                /\ acc' = IF e.res.kind = "ok" /\ Decidable(cell)
                          THEN (IF s \in DOMAIN acc THEN [acc EXCEPT ![s] = @ + w] ELSE acc @@ (s :> w))
                          ELSE acc
-               /\ failW' = IF e.res.kind = "ok" THEN failW ELSE failW + w
+               /\ failW' = IF e.res.kind \in {"ok", "cut"} THEN failW ELSE failW + w
+               /\ cutW' = IF e.res.kind = "cut" THEN cutW + w ELSE cutW
                /\ totW' = totW + w /\ nleaf' = nleaf + 1
                /\ stats' = [stats EXCEPT !.leaves = @ + 1]
                /\ UNCHANGED <<cell, info, prevG>>
        [] e.op = "wcellend" ->
             /\ bad' = bad \o BadOf(l, EndWhys(cell), 1)
             /\ stats' = [stats EXCEPT !.decided = @ + (IF Decidable(cell) /\ DOMAIN acc # {} THEN 1 ELSE 0)]
-            /\ cell' = NoCell /\ info' = NoCell /\ acc' = <<>> /\ failW' = 0 /\ totW' = 0 /\ nleaf' = 0 /\ UNCHANGED prevG
+            /\ cell' = NoCell /\ info' = NoCell /\ acc' = <<>> /\ failW' = 0 /\ cutW' = 0 /\ totW' = 0 /\ nleaf' = 0 /\ UNCHANGED prevG
        [] OTHER -> /\ bad' = bad \o <<Bad(l, "H:unknown-op")>>
-                   /\ UNCHANGED <<cell, info, acc, failW, totW, nleaf, stats, prevG>>
+                   /\ UNCHANGED <<cell, info, acc, failW, cutW, totW, nleaf, stats, prevG>>
   /\ l' = l + 1 /\ UNCHANGED done
 
 Finish == /\ l = NLines + 1 /\ ~done
           /\ WriteResult(bad, stats)
-          /\ done' = TRUE /\ UNCHANGED <<l, bad, cell, info, acc, failW, totW, nleaf, stats, prevG>>
+          /\ done' = TRUE /\ UNCHANGED <<l, bad, cell, info, acc, failW, cutW, totW, nleaf, stats, prevG>>
 
 Next == Step \/ Finish
 Spec == Init /\ [][Next]_vars
